@@ -11,7 +11,8 @@ RULE = ("random grammars (<=4 variables, <=2-3 terminals, <=7 productions, bodie
         "classes: strings, ints, variable/terminal value clash, reserved #CNF#/#SUBS# names), shuffled construction "
         "order; contains / `in` / generate_epsilon compared with the reference bounded language (least fixpoint) on ALL "
         "words of length <=4 (<=5 for one terminal) over the terminals plus one unknown symbol, each grammar queried fresh and after other "
-        "queries. Non-trivial: the language restricted to the bound is neither empty nor everything; distinct = case hash.")
+        "queries. Non-trivial: the language restricted to the bound is neither empty nor everything; distinct = case hash."
+        " Later additions: print-alike (0/'0'), fresh-name (#STARTCLOS#) and blank-containing terminal classes; words as tuples, one-shot iterables, Terminal objects; the grammar is also compared with the case record given to the constructor.")
 ASSUMPTIONS = ["membership is compared for all words up to the bound only"]
 TIERS = {
     "quick": {"workers": 4, "random": 3000},
